@@ -40,11 +40,14 @@ class Recorder(object):
 
     def __enter__(self):
         self.calls = []
+        self.draws = []
         self.orig = np.random.multivariate_normal
 
         def wrapped(mean, cov, size=None, *a, **k):
             self.calls.append((np.array(mean, dtype=float), np.array(cov, dtype=float), size))
-            return self.orig(mean, cov, size, *a, **k)
+            drawn = self.orig(mean, cov, size, *a, **k)
+            self.draws.append(np.array(drawn, dtype=float))
+            return drawn
         np.random.multivariate_normal = wrapped
         return self
 
@@ -109,6 +112,18 @@ def _exact(case):
             probs.append(('conditional-covariance-is-not-the-Schur-complement', '%s got %s expected %s' % (container, cov.tolist(), ecov.tolist())))
         elif not np.allclose(cov, cov.T, atol=1e-12) or np.min(np.linalg.eigvalsh((cov + cov.T) / 2)) < -1e-10:
             probs.append(('conditional-covariance-not-symmetric-psd', container))
+        # the free columns of the answer are the marginal quantiles of the normal scores that were drawn - also far out in the
+        # tails, where a condition several deviations outside the training range puts them (compared as probabilities)
+        Zd = rec.draws[-1].reshape(6, -1) if rec.draws and rec.draws[-1].size == 6 * len(free) else None
+        if Zd is not None:
+            for a, i in enumerate(order):
+                j = free[i]
+                got = np.asarray(m.univariates[j].cdf(out[cols[j]].to_numpy()), dtype=float)
+                want = stats.norm.cdf(Zd[:, a])
+                tail = np.minimum(want, 1.0 - want)
+                if np.any(np.abs(got - want) > 1e-9 + 1e-6 * tail):
+                    probs.append(('free-column-is-not-the-marginal-quantile-of-its-normal-score', '%s column %s: %s vs %s' % (container, cols[j], got.tolist(), want.tolist())))
+                    break
     return probs
 
 
